@@ -1082,6 +1082,12 @@ w('C07', 'hook tx runs although the ante decorators rejected it (badly signed ho
   ('x/opchild/keeper/deposit.go', '\tctx, err = k.decorators(ctx, tx, false)\n\tif err != nil {', '\tctx, err = k.decorators(ctx, tx, false)\n\tif err != nil && len(data) == 0 {'))
 w('C07', 'hook payload decode error ignored unless the payload is empty', 'C07.R12',
   ('x/opchild/keeper/deposit.go', '\ttx, err := k.txDecoder(data)\n\tif err != nil {', '\ttx, err := k.txDecoder(data)\n\tif err != nil && len(data) == 0 {'))
+w('C20', 'a failed read of the chain floor is ignored (tx admitted under the node floor only)', 'C20.R5',
+  ('x/opchild/ante/fee.go', '\t\t\tparamsMinGasPrices, err := mfd.keeper.MinGasPrices(ctx)\n\t\t\tif err != nil {\n\t\t\t\treturn nil, 0, err\n\t\t\t}\n', '\t\t\tparamsMinGasPrices, _ := mfd.keeper.MinGasPrices(ctx)\n'))
+w('C13', 'AddValidator: unsupported consensus key type accepted when types are listed', 'C13.R12',
+  ('x/opchild/keeper/msg_server.go', '\t\tif !hasKeyType {\n', '\t\tif !hasKeyType && len(cp.Validator.PubKeyTypes) == 0 {\n'))
+w('C13', 'AddValidator: key type compared with the moniker instead of the listed types', 'C13.R12',
+  ('x/opchild/keeper/msg_server.go', '\t\t\tif pkType == keyType {\n', '\t\t\tif pkType == keyType || req.Moniker == keyType {\n'))
 # wave g
 wseed('C01g','C01.R4'); wseed('C02g','C02.R1'); wseed('C03g','C03.R6'); wseed('C04g','C04.R6'); wseed('C05g','C05.R8')
 wseed('C06g','C06.R1'); wseed('C07g','C07.R3'); wseed('C08g','C08.R1'); wseed('C09g','C09.R6'); wseed('C10g','C10.R7')
